@@ -17,6 +17,7 @@ import (
 	"sort"
 	"strconv"
 	"strings"
+	"time"
 
 	"reservoir/proxy/headers"
 	"verifharness/core"
@@ -308,13 +309,26 @@ func c07RunE2E(b core.Batch, r *core.Recorder) {
 	retry := b.Bool("retry", false)
 	mode := rig.Mode(b.Str("transport", "plain"))
 	// origin: /s<size> -> body(res=size idx, v=1, size), ignores Range
+	// "zero_lifetime": stored entries are stale the moment they are stored (forced default lifetime of 1 ns), and
+	// the origin answers a matching If-None-Match with 304: every Range request after the first is built from an
+	// entry that has just been revalidated
+	zero := b.Bool("zero_lifetime", false)
 	o := rig.StartOrigin(func(w http.ResponseWriter, q *http.Request, rec *rig.OriginReq) {
 		var size int
 		fmt.Sscanf(strings.TrimPrefix(q.URL.Path, "/s"), "%d", &size)
+		if zero && q.Header.Get("If-None-Match") == rig.ETag(size%65536, 1) {
+			w.Header().Set("ETag", rig.ETag(size%65536, 1))
+			w.WriteHeader(304)
+			return
+		}
 		rig.ServeBody(w, size%65536, 1, size, map[string]string{"Cache-Control": "max-age=600"})
 	})
 	defer o.Close()
-	p := rig.StartProxy(rig.ProxyOpts{Backend: backend, RetryInvalid: retry})
+	opts := rig.ProxyOpts{Backend: backend, RetryInvalid: retry}
+	if zero {
+		opts.ForceDefault, opts.DefaultMaxAge = true, time.Nanosecond
+	}
+	p := rig.StartProxy(opts)
 	defer p.Close()
 
 	// representative Range strings: one per (reference class, impl behaviour) group per size + fixed list + random
@@ -515,6 +529,8 @@ func c07Plan(tier string, seed int64) []core.Batch {
 				bs = append(bs, core.Batch{Name: fmt.Sprintf("e2e-%s-retry%v-%s", be, retry, tr), TimeoutS: 1200,
 					Args: map[string]any{"mode": "e2e", "backend": be, "retry": retry, "transport": tr, "random": ernd}})
 			}
+			bs = append(bs, core.Batch{Name: fmt.Sprintf("e2e-%s-retry%v-zero-lifetime", be, retry), TimeoutS: 1200,
+				Args: map[string]any{"mode": "e2e", "backend": be, "retry": retry, "transport": "plain", "random": ernd / 3, "zero_lifetime": true}})
 		}
 	}
 	return bs
@@ -525,7 +541,7 @@ func init() {
 		ID:    "C07",
 		Level: "exploration",
 		Rule: "function level: every string prefix+tokens with prefix in 11 unit forms and up to <depth> tokens from {-, ',', SP, 0, 1, 9, 10, size-1, size, 2^31-1, 2^31, 2^32-1, 2^32, 2^63-1, 2^63, 2^64-1, 2^64, 10^30, x} for each representation size in {0,1,2,17,1000,70000} (bounded-exhaustive) plus seeded random strings, through the real header parser + SliceSize under recover, judged against an arbitrary-precision RFC 9110 reference; " +
-			"end to end: one representative per (reference class, implementation behaviour, length) group and size, 22 fixed boundary strings per size and a seeded sample, crossed round-robin with 11 If-Range forms (incl. a present but empty / blank field), both retry_on_invalid_range settings, both backends and transports, through the real proxy against an origin that ignores Range; the 206/416/200 the client parses is checked byte for byte. Non-trivial = distinct (string,size) that is not 'malformed' (function level) / distinct case (e2e).",
+			"end to end: one representative per (reference class, implementation behaviour, length) group and size, 22 fixed boundary strings per size and a seeded sample, crossed round-robin with 11 If-Range forms (incl. a present but empty / blank field), both retry_on_invalid_range settings, both backends and transports, through the real proxy against an origin that ignores Range (also with entries that are stale the moment they are stored and an origin answering If-None-Match with 304, so that slices are built from just-revalidated entries); the 206/416/200 the client parses is checked byte for byte. Non-trivial = distinct (string,size) that is not 'malformed' (function level) / distinct case (e2e).",
 		Assumptions: []string{"a Range string that is not well-formed even after removing SP/HTAB has no defined meaning: any in-bounds slice, 416 or full 200 is accepted for it",
 			"a well-formed satisfiable range may be refused (416 / 200) but if a 206 is served it must be exactly the RFC 9110 slice", "If-Range with a date later than Last-Modified is not judged"},
 		Plan:     c07Plan,
